@@ -1,10 +1,73 @@
-(** C08 — the selection loop of obikmer.FastShiftFourMer: the map shift -> count is visited in SOME order
-    (Go map iteration order is unspecified); each entry carries its score (count, or count / (overlap - 3) in
-    relative mode, an exact rational here: IEEE division is correctly rounded, equal rationals give equal floats).
-    Definitions only. *)
-From Coq Require Import ZArith QArith List.
+(** C08 — executable model of the fast-mode diagonal vote: obikmer.Encode4mer, Index4mer, FastShiftFourMer
+    (pkg/obikmer/encodefourmer.go).  Definitions only.
+
+    Encode4mer: rolling byte code, two bits per base (table [single_base_code], regenerated from the build).
+    Index4mer: for every code the ascending list of its positions in read A.
+    FastShiftFourMer: for every position [pos] of a 4-mer of read B and every position [refpos] of the same 4-mer in A,
+    the counter of the diagonal [refpos - pos] is incremented in a map; then the map is visited in SOME order
+    (Go map iteration order is unspecified; the model visits it in insertion order and the theorem
+    C08_vote_order_independent shows that the order is irrelevant); each entry carries its score (count, or
+    count / (overlap - 3) in relative mode — an exact rational here: IEEE division is correctly rounded, equal
+    rationals give equal floats and distinct rationals with denominators below 2^20 give distinct, equally ordered
+    floats). *)
+From Coq Require Import ZArith QArith List Bool.
+From OBI.C08.Gen Require Import Tables.
 Import ListNotations.
 
+(** ---- Encode4mer *)
+Definition bcode (b : Z) : Z := nth (Z.to_nat (Z.land b 31)) single_base_code 0%Z.
+(** byte arithmetic: [code <<= 2; code += x] (first four bases) and [code <<= 2; code |= x] (the others) *)
+Definition step_add (code x : Z) : Z := (((code * 4) mod 256 + bcode x) mod 256)%Z.
+Definition step_or (code x : Z) : Z := Z.lor ((code * 4) mod 256) (bcode x).
+
+Fixpoint roll (code : Z) (s : list Z) : list Z :=
+  match s with
+  | [] => []
+  | x :: r => let c := step_or code x in c :: roll c r
+  end.
+
+(** [length <= 0 => nil] (after the fix: a read of length 3 has no 4-mer) *)
+Definition encode4mer (s : list Z) : list Z :=
+  match s with
+  | x0 :: x1 :: x2 :: x3 :: r =>
+      let c := step_add (step_add (step_add (step_add 0 x0) x1) x2) x3 in c :: roll c r
+  | _ => []
+  end.
+
+(** ---- Index4mer: index[code] = positions of [code] in the 4-mer list of A, ascending *)
+Fixpoint positions_from (code : Z) (ks : list Z) (i : nat) : list nat :=
+  match ks with
+  | [] => []
+  | k :: r => if (k =? code)%Z then i :: positions_from code r (S i) else positions_from code r (S i)
+  end.
+Definition index4 (ks : list Z) (code : Z) : list nat := positions_from code ks 0.
+
+(** ---- FastShiftFourMer, counting loop.  The map shift -> count is an association list in insertion order. *)
+Definition vmap := list (Z * Z).
+
+Fixpoint bump (m : vmap) (s : Z) : vmap :=
+  match m with
+  | [] => [(s, 1%Z)]
+  | (k, c) :: r => if (k =? s)%Z then (k, (c + 1)%Z) :: r else (k, c) :: bump r s
+  end.
+
+Fixpoint vget (m : vmap) (s : Z) : Z :=
+  match m with
+  | [] => 0%Z
+  | (k, c) :: r => if (k =? s)%Z then c else vget r s
+  end.
+
+Fixpoint vote_loop (ka kb : list Z) (pos : nat) (m : vmap) : vmap :=
+  match kb with
+  | [] => m
+  | code :: r =>
+      vote_loop ka r (S pos)
+        (fold_left (fun m refpos => bump m (Z.of_nat refpos - Z.of_nat pos)%Z) (index4 ka code) m)
+  end.
+
+Definition count_votes (ka kb : list Z) : vmap := vote_loop ka kb 0 [].
+
+(** ---- selection loop *)
 Record ventry := mkv { v_shift : Z; v_count : Z; v_score : Q }.
 Definition vstate := (Z * Z * Q)%type.
 
@@ -14,10 +77,47 @@ Definition vote_init : vstate := (0%Z, 0%Z, (-1)%Q).
 (** if score > maxscore {take all} else if score == maxscore && shift < maxshift {take shift and count} *)
 Definition vote_step (st : vstate) (e : ventry) : vstate :=
   let '(ms, mc, msc) := st in
-  match v_score e ?= msc with
+  match (v_score e ?= msc)%Q with
   | Gt => (v_shift e, v_count e, v_score e)
   | Eq => if (v_shift e <? ms)%Z then (v_shift e, v_count e, msc) else st
   | Lt => st
   end.
 
 Definition vote_select (l : list ventry) : vstate := fold_left vote_step l vote_init.
+
+(** the overlap a diagonal stands for in the relative score: lindex - shift, len(seq) + shift, min(lindex, len(seq)) *)
+Definition rel_over (la lb shift : Z) : Z :=
+  if (shift >? 0)%Z then (la - shift)%Z else if (shift <? 0)%Z then (lb + shift)%Z else Z.min la lb.
+
+(** score = float64(count) [/ float64(over - 3)].  A diagonal that holds a vote has over - 3 >= 1 (lemma vote_over). *)
+Definition vscore (rel : bool) (la lb shift count : Z) : Q :=
+  if rel then Qmake count (Z.to_pos (rel_over la lb shift - 3)) else inject_Z count.
+
+Definition entries (rel : bool) (la lb : Z) (m : vmap) : list ventry :=
+  map (fun p => mkv (fst p) (snd p) (vscore rel la lb (fst p) (snd p))) m.
+
+(** Index4mer(seqA) + FastShiftFourMer(index, shifts, len(seqA), seqB, relscore): (shift, count, score) *)
+Definition fast_shift (a b : list Z) (rel : bool) : vstate :=
+  vote_select (entries rel (Z.of_nat (length a)) (Z.of_nat (length b)) (count_votes (encode4mer a) (encode4mer b))).
+
+(** ---- specification side (used by the theorems) *)
+(** the 4-mer code of the window starting at each position *)
+Definition wcode (x0 x1 x2 x3 : Z) : Z := (64 * bcode x0 + 16 * bcode x1 + 4 * bcode x2 + bcode x3)%Z.
+Fixpoint kmers (s : list Z) : list Z :=
+  match s with
+  | x0 :: ((x1 :: x2 :: x3 :: _) as r) => wcode x0 x1 x2 x3 :: kmers r
+  | _ => []
+  end.
+
+(** the 4-mer [code] at position [pos] of B faces the same 4-mer of A on diagonal [d] (A position pos + d) *)
+Definition match_at (ka : list Z) (d : Z) (pos : nat) (code : Z) : bool :=
+  let i := (Z.of_nat pos + d)%Z in
+  (0 <=? i)%Z && (i <? Z.of_nat (length ka))%Z && (nth (Z.to_nat i) ka (-1)%Z =? code)%Z.
+
+(** number of positions of B (from [pos] on) whose 4-mer is found in A on diagonal [d] *)
+Fixpoint diag_count_from (ka kb : list Z) (pos : nat) (d : Z) : Z :=
+  match kb with
+  | [] => 0%Z
+  | code :: r => ((if match_at ka d pos code then 1 else 0) + diag_count_from ka r (S pos) d)%Z
+  end.
+Definition diag_count (ka kb : list Z) (d : Z) : Z := diag_count_from ka kb 0 d.
